@@ -9,6 +9,7 @@ pub mod c12;
 pub mod c13;
 pub mod c14;
 pub mod c15;
+pub mod c16;
 pub mod c17;
 pub mod c18;
 pub mod c19;
@@ -60,6 +61,7 @@ dispatch! {
     "C13" => c13,
     "C14" => c14,
     "C15" => c15,
+    "C16" => c16,
     "C17" => c17,
     "C18" => c18,
     "C19" => c19,
